@@ -418,9 +418,10 @@ JS table still keyed `'110H1cm9.14m'` after the Python repair (91077db); Python
 refused by Python and scored by JS (25ce52e). Quick ≈ 80 s: 1932 paths, 1748
 obligations (565 syntactic), 3370 witness values agreed with node / python.
 Session 3: history jobs (sprint rows after one hand-timed call for the same row *in both languages*: a calculator object
-kept between calls made Python score 959 where JavaScript scores 1000). State kept by the JavaScript side between paths is not
-restored by `symrun/state.py` (the interpreter's module objects are outside its reach); a divergence would end as
-"re-execution diverged" (exit 2). Seeds 6/6.
+kept between calls made Python score 959 where JavaScript scores 1000). The interpreted JavaScript modules are evaluated again
+from their cached syntax trees before every path (`Interp.reset_modules`, registered with `symrun/state.py`; 34 ms), so
+module-level state of the port cannot leak between paths either; a hand-made sticky flag on the JavaScript side is reported by
+the same history jobs. Seeds 8/8.
 '''
 
 S210 = '''### 2.10 Re-execution, library state and call histories (added in session 3)
